@@ -22,6 +22,8 @@ def spec(tier):
         for sus in ((-1, 1, 2) if thorough else ((-1, 1) if t2 == 1 else (-1,))):
             mk(f"cpu_t{t2}_s{sus}", dict(cap_cpu=I(0, 8), c1=I(-1, 9), c2=I(-1, 9), c3=I(-1, 9)),
                t2=t2, sus_at=sus)
+    for t2 in (0, 1):
+        mk(f"cpu_oc1_t{t2}", dict(cap_cpu=I(0, 8), c1=I(-1, 9), c2=I(-1, 9), c3=I(-1, 9)), t2=t2, sus_at=-1, overcommit=True)
     # V1b: RAM sizes symbolic, CPU valid, with and without overcommit
     for oc in (False, True):
         for t2 in ((0, 1, 2) if thorough else (0, 1)):
